@@ -180,10 +180,13 @@ PROPS["C14"] = {
     "harnesses": [
         {"name": "c14_burst_2nodes", "fn": "c14_burst", "params": {"quick": {"secondaries": 1, "orders": 0}, "thorough": {"secondaries": 1, "orders": 1}}},
         {"name": "c14_burst_3nodes", "fn": "c14_burst", "params": {"quick": {"secondaries": 2, "orders": 0, "budget": 120}}},
+        {"name": "c14_burst_2nodes_newer", "fn": "c14_burst", "params": {"quick": {"secondaries": 1, "orders": 0, "dbstrategy": 1}, "thorough": {"secondaries": 1, "orders": 1, "dbstrategy": 1}}},
+        {"name": "c14_burst_3nodes_newer", "fn": "c14_burst", "params": {"quick": {"secondaries": 2, "orders": 0, "budget": 120, "dbstrategy": 1}}},
+        {"name": "c14_burst_2nodes_none", "fn": "c14_burst", "params": {"quick": {"secondaries": 1, "orders": 0, "dbstrategy": 2}}},
         {"name": "c14_burst_3nodes_after_handover", "fn": "c14_burst", "params": {"quick": {"secondaries": 2, "orders": 0, "budget": 120, "handover": 1}}, "covers": ["handover.done"]},
         {"name": "c14_burst_2nodes_after_handover", "fn": "c14_burst", "params": {"quick": {"secondaries": 1, "orders": 0, "handover": 1}, "thorough": {"secondaries": 1, "orders": 1, "handover": 1}}, "covers": ["handover.done"]},
     ],
-    "bounds": {"quick": "clusters of 2 and 3 nodes (arbiter-strategy database d with key k, common replicated history), an arbiter session at a solver-chosen node or nowhere, then ONE of 14 client commands at a solver-chosen node; the same after a primary hand-over from n1 to n2 with n1 staying as a secondary; messages crossing links counted until quiescence with a step budget of 80 / 120 (far above the bound 1 + 2 per secondary); one fair delivery order",
+    "bounds": {"quick": "clusters of 2 and 3 nodes (database d with key k, common replicated history; strategy arbiter, and newer / none variants), an arbiter session at a solver-chosen node or nowhere, then ONE of 14 client commands at a solver-chosen node; the same after a primary hand-over from n1 to n2 with n1 staying as a secondary; messages crossing links counted until quiescence with a step budget of 80 / 120 (far above the bound 1 + 2 per secondary); one fair delivery order",
                "thorough": "2 nodes under all FIFO-respecting delivery orders"},
     "outside": "commands with symbolic arguments (the argument values do not change who sends what); nodes joining or leaving (the hand-over variant keeps the old primary as a secondary: n1 yields, n2 claims the role with the real election_win, supervisor arms election-win / primary mirrored)",
     "assumptions": ["environment shims", "the link pump mirrors handle_client / start_replication"],
@@ -192,9 +195,9 @@ PROPS["C14"] = {
 PROPS["C13"] = {
     "level": "model_checking",
     "harnesses": [
-        {"name": "c13_events", "params": {"quick": {"events": 5}, "thorough": {"events": 6}}, "covers": ["conflict.queued", "resolve.done", "resolve.out-of-order"], "budget_s": {"quick": 900, "thorough": 7200}},
+        {"name": "c13_events", "params": {"quick": {"events": 5}, "thorough": {"events": 6}}, "covers": ["conflict.queued", "resolve.done", "resolve.out-of-order", "write.same-value-over-pending"], "budget_s": {"quick": 900, "thorough": 7200}},
     ],
-    "bounds": {"quick": "single node, arbiter-strategy database, one key with history (version 1); all sequences of 5 events from {an arbiter registers, the arbiter disconnects, plain set, set-safe with any base version in [0,3], the arbiter resolves the oldest pending conflict echoing the op id and version of its notice, the arbiter resolves the newest pending conflict first (out of queue order)}; after every event: refused-or-queued writes leave the value untouched, a queued conflict is recorded under $conflicts_<key>_<opid> and delivered (or re-delivered to the next arbiter, exactly the unresolved ones, in order), nothing is applied over a pending conflict; at the end the key holds the last resolution and is writable again",
+    "bounds": {"quick": "single node, arbiter-strategy database, one key with history (version 1); all sequences of 5 events from {an arbiter registers, the arbiter disconnects, plain set (with a fresh value, or - while a conflict is pending - with exactly the value the key holds), set-safe with any base version in [0,3], the arbiter resolves the oldest pending conflict echoing the op id and version of its notice, the arbiter resolves the newest pending conflict first (out of queue order)}; after every event: refused-or-queued writes leave the value untouched, a queued conflict is recorded under $conflicts_<key>_<opid> and delivered (or re-delivered to the next arbiter, exactly the unresolved ones, in order), nothing is applied over a pending conflict; at the end the key holds the last resolution and is writable again",
                "thorough": "6 events"},
     "outside": "two keys; clusters (the resolve path of a cluster is covered by C14 / C04: it does not quiesce, recorded there); resolutions that pick the old value",
     "assumptions": ["environment shims", "op ids come from the logical clock (distinct)"],
